@@ -729,6 +729,70 @@ def setter_cases(tier):
     return out
 
 
+# ----------------------- several instances created with the SAME ftarg dict
+FN_SHARED = 'mc.checks.c20_time:case_shared'
+
+
+def case_shared(c):
+    """Two Fourier objects are created with one and the same ftarg dict
+    object (and time array object).  Each must behave like an object created
+    with its own copy; the caller's dict stays as it was."""
+    import emg3d
+    ft, ftarg = FTS[c['ft']]
+    user = copy.deepcopy(ftarg)
+    keep = copy.deepcopy(user)
+    specs = [(c['time1'], c['sig1']), (c['time2'], c['sig2'])]
+    viol = []
+    objs, refs = [], []
+    with warnings.catch_warnings():
+        warnings.simplefilter('ignore')
+        for tname, sig in specs:
+            t = TIMES[tname]()
+            req, _, _ = ref_required(t, sig, ft, ftarg)
+            fmin, fmax = band(req, 'cut')
+            objs.append(emg3d.time.Fourier(t, fmin, fmax, signal=sig, ft=ft,
+                                           ftarg=user, verb=0))
+            refs.append((t, fmin, fmax, sig))
+        for k, (F, (t, fmin, fmax, sig)) in enumerate(zip(objs, refs)):
+            G = new_fourier(t, fmin, fmax, sig, ft, ftarg, {})
+            what = (f"{c['ft']}: instance {k} of two sharing one ftarg dict "
+                    f"(times {c['time1']}/{c['time2']}, signals "
+                    f"{c['sig1']}/{c['sig2']})")
+            if not np.array_equal(F.freq_required, G.freq_required):
+                viol.append({'cls': 'shared-ftarg-changes-frequencies',
+                             'what': what})
+                continue
+            if G.freq_compute.size < 4:
+                continue
+            fd = spectra(np.asarray(G.freq_compute), [])[1][1]
+            ta, tb = F.freq2time(fd.copy(), 50.0), G.freq2time(fd.copy(), 50.)
+            sc = max(float(np.abs(tb).max()), 1e-300)
+            if ta.shape != tb.shape or not np.abs(ta - tb).max() <= 1e-12*sc:
+                viol.append({
+                    'cls': 'instances-sharing-an-ftarg-dict-interfere',
+                    'what': what + ': freq2time differs from an object with '
+                            'its own ftarg by '
+                            f'{np.abs(ta - tb).max()/sc:.2e}'})
+    if set(user) != set(keep) or any(
+            not np.array_equal(user[k_], keep[k_]) for k_ in keep):
+        viol.append({'cls': 'user-ftarg-dict-modified',
+                     'what': f"{c['ft']}: the ftarg dict handed to Fourier "
+                             f"changed: {sorted(keep)} -> {sorted(user)}"})
+    return {'viol': viol, 'compared': 4, 'transitions': 2,
+            'nontrivial': True, 'outcome': (c['ft'], bool(viol))}
+
+
+def shared_cases(tier):
+    out = []
+    for ft in FTS:
+        for t1, t2 in (('log5', 'log20'), ('log20', 'lin'), ('lin', 'lin')):
+            for s1 in SIGNALS:
+                for s2 in SIGNALS:
+                    out.append({'ft': ft, 'time1': t1, 'time2': t2,
+                                'sig1': s1, 'sig2': s2})
+    return out
+
+
 def prepare(ctx):
     import emg3d  # noqa: F401
     import empymod  # noqa: F401
@@ -767,6 +831,14 @@ def run(ctx):
                     rule='7 ways of setting input_freq / every_x_freq x '
                          'every_x in {1,2,5} x 2 times x 2 transforms',
                     time_cap=ctx.budget or 30)
+    if ctx.wants('shared'):
+        ctx.explore('shared-arguments', FN_SHARED, shared_cases(ctx.tier),
+                    engine='E2',
+                    rule='9 transforms x 3 time-vector pairs x 3x3 signals: '
+                         'two Fourier objects created with ONE ftarg dict '
+                         'object; each equals an object with its own '
+                         'arguments, the dict stays unchanged',
+                    time_cap=ctx.budget or (160 if q else 600))
     if ctx.wants('setters'):
         ctx.explore('setters', FN_SET, setter_cases(ctx.tier), engine='E2',
                     rule='all operation sequences (14 setter operations) up '
